@@ -400,6 +400,9 @@ def run(chk):
     for v in prog.variants():
         vn = v.name
         chk.analysed["variants"] = chk.analysed.get("variants", 0) + 1
+        # R7 the gadget the TGSW encryption places and the decryption decomposes with is computed with logical shifts only
+        from sa import shifts as _shifts
+        _shifts.check(chk, v, "R7", ["libtfhe/tgsw.cpp", "libtfhe/tgsw-functions.cpp", "libtfhe/numeric-functions.cpp"], "gadget, decomposition and rounding")
         # ------------------------------------------------ R1 LWE
         ph = v.fn("lwePhase")
         pps, _ = summ.pieces(v, ph, hooks=inl())
